@@ -666,7 +666,7 @@ def check_mediation(ctx, rep, rule61="R06.1", rule62="R06.2"):
     leaks = [n for n in r_other if n in acc_set or n in checks]
     raises_te = [n for n in r_other if isinstance(n.ast, ast.Raise) and TypeError in (n.raises or ())]
     okg = not leaks and bool(raises_te) and g.exit not in r_other
-    rep.ob(rule61, "_access_attr: a name that is not text is refused with TypeError before any access", okg,
+    sob(rule61, "_access_attr: a name that is not text is refused with TypeError before any access", okg,
            "for a name whose exact type is neither str nor bytes only `raise TypeError` is reachable" if okg else
            "a name that is neither str nor bytes can reach %s: objects passed by reference (e.g. a str subclass whose methods "
            "the peer controls) take part in the policy decision" % (leaks[0].text()[:50] if leaks else "the end of the function"),
@@ -678,7 +678,7 @@ def check_mediation(ctx, rep, rule61="R06.1", rule62="R06.2"):
     did = {n.id for n in decodes}
     pb = Q.find_path_ef(g.entry, lambda x: x in acc_set or x in checks,
                         lambda a, b, l: l != "exc" and okb_e(a, b, l) and a.id not in did)
-    rep.ob(rule61, "_access_attr: a bytes name is decoded to text before it is used", pb is None,
+    sob(rule61, "_access_attr: a bytes name is decoded to text before it is used", pb is None,
            "every path taken for a bytes name passes `name = str(name, 'utf8')`" if pb is None else
            "a bytes name reaches the policy / the access without being decoded", fa.loc, witness=ctx.path(pb) if pb else None)
     # R06.2 triples
